@@ -25,6 +25,10 @@ def generator_rows(P, cl, which):
 def run(chk, ctx):
     P = Prog(ctx["facts"])
     popped_row_untouched_rule(chk, P)
+    # "the vector handed to the driver is complete": the generated vector is the one the driver receives (shared with C02)
+    from . import c02
+    c02.run(chk.only(("ORG:handle_io:write_input_and_read_output-args", "ORG:handle_io:write_input-args", "ORG:next:handle_io-gets-this-rows-inputs", "ORG:next:into_data_row-consumes-same-row",
+                      "ORG:into_data_row:inputs-moved", "WHO:EvaluatedRow.inputs-unwritten", "ORG:try_new:default-vector", "ORG:default-vector:")), ctx)
     from . import eqrules
     eqrules.require(chk, P, ["stmt::DataEntry"], "`new != old` on row entries means a different entry (kind or value)")
     eqrules.require_clone(chk, P, ["stmt::DataEntries"], "expansion copies carry the row's entries unchanged")
